@@ -433,10 +433,52 @@ def src_(n):
     return ast.unparse(n)
 
 
+def blocked_stride(ctx, repo):
+    """STRIDE (blocks): windows at k = 0, s, 2s, ... taken block-wise as `seq[a:b:s]` for block starts a = 0, B, 2B, ... are at the
+    right positions only if every block start is a multiple of the stride, i.e. if B is a multiple of s.  A block size that does not
+    depend on s restarts the stride at every block."""
+    import ast
+    mod = repo.module("molgri.molecules.transitions")
+    bad, n_sites = [], 0
+    for f in [f_ for n_, f_ in mod.functions.items() if n_.split(".")[-1] in ("window", "noncorr_window")]:
+        params = set(f.params())
+        for lp in [n for n in ast.walk(f.node) if isinstance(n, ast.For) and isinstance(n.target, ast.Name) and isinstance(n.iter, ast.Call) and
+                   src_(n.iter.func) == "range" and len(n.iter.args) == 3]:
+            B = n_B = lp.iter.args[2]
+            a = lp.target.id
+            for sub in [n for n in ast.walk(lp) if isinstance(n, ast.Subscript) and isinstance(n.slice, ast.Slice) and n.slice.step is not None]:
+                S = n.slice.step if False else sub.slice.step
+                if not (isinstance(S, ast.Name) and S.id in params):
+                    continue
+                lower = sub.slice.lower
+                if lower is None or not any(isinstance(x, ast.Name) and x.id == a for x in ast.walk(lower)):
+                    continue
+                # a BLOCK slice: its upper bound is derived from the block size (it spans many windows), unlike the two-element
+                # window slice seq[k : k+tau+1 : tau] of the plain position loop
+                from ..astutil import Canon
+                cn = Canon(Canon.single_defs(lp.body))
+                upper = cn.expand(sub.slice.upper) if sub.slice.upper is not None else None
+                b_names = {x.id for x in ast.walk(B) if isinstance(x, ast.Name)}
+                if upper is None or not b_names or not (b_names & {x.id for x in ast.walk(upper) if isinstance(x, ast.Name)}):
+                    continue
+                n_sites += 1
+                if S.id not in b_names:
+                    bad.append((f, sub, lp, S.id))
+    ctx.instance("LIN", n_sites + 1)
+    for f, sub, lp, sname in bad:
+        ctx.violate("LIN", "C12.window.blocks", f"strided windows are taken block by block (`{src_(sub)[:60]}`) and the block size "
+                    f"`{src_(lp.iter.args[2])}` does not depend on the stride `{sname}`: unless the stride divides the block size, the windows of "
+                    "every later block start at positions that are not multiples of the stride", f.where, src_(lp.iter)[:120],
+                    witness=f"block start a = {src_(lp.iter.args[2])}, stride s: positions a + j*s are multiples of s only if s | a")
+    if not bad:
+        ctx.ok("LIN", "C12.window.blocks", "no block-wise strided slicing whose block size is independent of the stride", "molgri/molecules/transitions.py:window")
+
+
 def run(ctx, repo, tier):
     for noncorr in (False, True):
         analyse_mode(ctx, repo, noncorr)
     stride_after_filter(ctx, repo)
+    blocked_stride(ctx, repo)
     # get_all_tau_transition_matrices forwards the mode flag unchanged
     fa = repo.func("molgri.molecules.transitions", "MSM.get_all_tau_transition_matrices")
     ctx.analysed(fa)
